@@ -27,6 +27,10 @@ def run(ctx, factor):
             insts = gen_rules.perturb(g, insts)
         if g.chance(0.4):
             insts = insts + gen_rules.realise(g, doc)
+        if g.chance(0.12):
+            # addresses written with upper-case hex digits (accepted by the listing parser): whatever is matched, the
+            # address-only answer must still be the text in front of `::` of the full answer
+            insts = [((a[:-3].upper() + a[-3:]) if len(a) > 3 else a.upper(), m, ops) for a, m, ops in insts]
         o = patdiff.observe(ctx, doc, insts, modes=("8",))
         usable = patdiff.correspondence(ctx, o, ties=("T1",))
         tags = []
